@@ -29,7 +29,15 @@ def run(ctx):
     f = PM.nxt
     ctx.touch(f)
     FLAG = PM.flag
+    keepalive_table(ctx)
+    return run_rest(ctx, PM, f, FLAG)
 
+
+def keepalive_table(ctx):
+    facts = ctx.facts
+    roles.bind(facts)
+    PM = PR.pmodel(facts)
+    f = PM.nxt
     # ---- C12.1 keep-alive decision table
     paths = [p for p in PM.after_read(PR.Ok_(PR.RQ)) if p.end[0] not in ("diverge", "resume", "terminate", "unreachable")]
     ctx.paths += len(paths)
@@ -113,6 +121,10 @@ def run(ctx):
     ctx.ob("C12.1", "%s|table" % PM.cc_next.id, "for every combination of the atoms and versions 0.9/1.0/1.1 the request is delivered and marked last exactly when: close; upgrade; HTTP/1.0 without keep-alive; HTTP/1.0 without a Connection header",
            not bad, "%s:%d" % (f.file, f.line), None if not bad else "first mismatches: %s" % bad[:3])
 
+
+
+def run_rest(ctx, PM, f, FLAG):
+    facts = ctx.facts
     # ---- C12.2 the flag gates every read and is never reset
     n = 0
     ctx.ob("C12.2", "flag-init|%s" % CC, "a new connection starts with the gate in one definite state (the open state)", len(PM.flag_open) == 1 and None not in PM.flag_open, PM.file, str(sorted(map(str, PM.flag_open))))
@@ -185,8 +197,14 @@ def half_rules(ctx):
     if halves is None:
         return
     want = ["Read", "Write"]
+    # fields of a half that anything changes after construction are unknown by the time the half is destroyed
+    mutable = sorted({x["name"] for x in facts.adt(RTS)["variants"][0]["fields"] for g, bb, kind, w in facts.field_writes(RTS, x["name"]) if kind in ("assign", "calldest", "mutref")})
+    ctx.counts["C12.3 fields of a socket half that change after construction"] = mutable
     for i, h in enumerate(halves):
         st = symex.Sym(fd)
+        h = absint.deep(rets[0].state, h)
+        if mutable and h and h[0] == "agg":
+            h = (h[0], h[1], h[2], {k: (("sym", "changed-since-construction:" + k) if k in mutable else v) for k, v in h[3].items()})
         st.write_key((1, "*"), h)
         paths = [p for p in absint.explore(fd, 0, st) if p.end[0] == "return"]
         ctx.paths += len(paths)
